@@ -63,6 +63,13 @@ def enumerated(tier):
                    {"noise": True, "login": True, "flow": "connect", "K": 8.0, "split": 1, "gap": 1, "events": [], "final_at": 100.0},
                    {"noise": True, "login": True, "flow": "connect", "K": 8.0, "split": 1, "gap": 3, "events": [{"do": "chunk", "frames": ["garbage"], "it": 5}], "final_at": 100.0}):
             yield {**sc, "psk_text": psk}
+    # a device that announces no name; its description, whenever somebody asks for it, comes with a closing frame behind it
+    for noise in (False, True):
+        for login in (False, True):
+            for flow in ("connect", "full"):
+                for extra in (["discreq"], ["garbage"], ["badstate"], ["state", "discreq"]):
+                    for exp in (None, "dev"):
+                        yield {"noise": noise, "login": login, "flow": flow, "K": 8.0, "events": [], "final_at": 100.0, "device_name": "", "devinfo_extra": extra, **({"expected_name": exp} if exp else {})}
     yield from life.slow_hello_disconnect_sweep()
     yield from life.hello_trailer_sweep()
     yield from life.sock_fault_sweep()
